@@ -92,9 +92,11 @@ class ESBMetadata(Metadata):
     @classmethod
     def convert_from_header(cls, pkt):
         metadata = ESBMetadata()
-        pkt = ESB_Hdr(bytes(pkt))
-        metadata.address = EsbNodeAddress(pkt.address)
-        metadata.is_crc_valid = pkt.valid_crc
+        esb_pkt = ESB_Hdr(bytes(pkt))
+        metadata.address = EsbNodeAddress(esb_pkt.address)
+        metadata.is_crc_valid = esb_pkt.valid_crc
+        # Timestamp comes from the captured packet, not from its re-dissected copy
+        # (a fresh scapy packet is stamped with the current local time)
         metadata.timestamp = int(100000 * pkt.time)
         metadata.channel = 0
         return metadata
